@@ -3,6 +3,9 @@
 import json, sys
 pid, wt = sys.argv[1], sys.argv[2]
 n = int(sys.argv[3]) if len(sys.argv) > 3 else 2
+AVOID = ""
+if len(sys.argv) > 4:
+    AVOID = "\n\nOther people have already tried the following changes for this property; do NOT repeat them or close variants of them (same function + same idea) - look for different code sites, different clauses of the property and different triggering conditions:\n" + open(sys.argv[4]).read() + "\n"
 p = next(json.loads(l) for l in open("/verif/properties.jsonl") if json.loads(l)["id"] == pid)
 print(f"""You are testing how good a verification effort is by planting realistic bugs. You work ONLY inside the git worktree {wt} (a checkout of the urllib3 source tree; Python package under {wt}/src/urllib3, tests under {wt}/test). Never touch /repo or /verif, never read anything under /verif. Use /venv/bin/python. IMPORTANT: /venv has urllib3 installed in editable mode pointing elsewhere, so ALWAYS run python/pytest with `PYTHONPATH={wt}/src` (check with `PYTHONPATH={wt}/src /venv/bin/python -c "import urllib3; print(urllib3.__file__)"`). There is no network. Other agents work in sibling worktrees of the same repository at the same time: NEVER use `git stash` (the stash is shared between worktrees) - to set a change aside use `git diff > file; git checkout -- .` and `git apply file`.
 
@@ -17,7 +20,7 @@ Your job: produce {n} DIFFERENT, independent changes to the urllib3 source (each
   (a) makes the property FALSE (you can demonstrate a concrete violation),
   (b) still imports/compiles and still passes the existing test suite, and
   (c) needs something SPECIFIC to manifest: a particular interleaving, a fault at a particular point, a multi-step sequence of operations, an unusual input, a particular configuration combination, or two cooperating sites that each look fine alone.
-Prefer changes in shared mutable state, cursor/offset/budget logic, exception-class tuples, state flags reset at the wrong moment, normalisation steps, ordering of two statements. Make the two changes different in kind and in location.
+{AVOID}Prefer changes in shared mutable state, cursor/offset/budget logic, exception-class tuples, state flags reset at the wrong moment, normalisation steps, ordering of two statements. Make the two changes different in kind and in location.
 
 For EACH change i (i = 1..{n}) deliver, under {wt}/deliver/m<i>/ :
   * patch.diff   - `git diff` of the change against the worktree's HEAD (only files under src/); the worktree must be back at HEAD (git checkout -- .) when you finish, with the patches saved under deliver/.
